@@ -1,6 +1,7 @@
 package chaingen
 
 import (
+	"crypto/sha256"
 	"github.com/protolambda/zrnt/eth2/beacon/common"
 )
 
@@ -232,6 +233,7 @@ func (c *Chain) onEpochBoundary(ended common.Epoch) {
 			c.Stats.Inc("altair_upgrade_with_active_set_change")
 		}
 	}
+	c.samplingCounters(st, flats, ended, cur)
 	c.proposerSensitivity(st, flats, ended, cur)
 	c.noteState(st)
 }
@@ -317,3 +319,98 @@ func (c *Chain) forkAtEpoch(e common.Epoch) ForkID {
 	}
 	return Phase0
 }
+
+// samplingCounters re-runs the specification's two balance-weighted sampling loops (own transcription; only the shuffling
+// primitive and the seed come from zrnt) and counts how many candidates they look at.
+func (c *Chain) samplingCounters(st common.BeaconState, flats []common.FlatValidator, ended, cur common.Epoch) {
+	sp := c.Spec
+	if cur != ended+1 || c.Epc == nil || c.Epc.CurrentEpoch == nil || c.Epc.NextEpoch == nil {
+		return
+	}
+	defer func() { recover() }()
+	mixes, err := st.RandaoMixes()
+	if err != nil {
+		return
+	}
+	accept := func(v common.ValidatorIndex, b byte) bool {
+		return flats[v].EffectiveBalance*0xff >= sp.MAX_EFFECTIVE_BALANCE*common.Gwei(b)
+	}
+	// get_next_sync_committee_indices as it ran for this boundary
+	f := sp.ALTAIR_FORK_EPOCH
+	var base common.Epoch
+	var active []common.ValidatorIndex
+	switch {
+	case cur == f:
+		base, active = cur+1, c.Epc.NextEpoch.ActiveIndices // upgrade_to_altair: epoch of the state + 1
+	case cur > f && cur%sp.EPOCHS_PER_SYNC_COMMITTEE_PERIOD == 0:
+		base, active = cur, c.Epc.CurrentEpoch.ActiveIndices // computed by the transition that ended cur-1
+	}
+	if n := uint64(len(active)); n > 0 {
+		seed, err := common.GetSeed(sp, mixes, base, common.DOMAIN_SYNC_COMMITTEE)
+		if err == nil {
+			var buf [40]byte
+			copy(buf[:32], seed[:])
+			examined, rejected, got := uint64(0), 0, uint64(0)
+			var h [32]byte
+			for i := uint64(0); got < uint64(sp.SYNC_COMMITTEE_SIZE) && i < 100000; i++ {
+				cand := active[common.PermuteIndex(uint8(sp.SHUFFLE_ROUND_COUNT), common.ValidatorIndex(i%n), n, seed)]
+				if i%32 == 0 {
+					binaryLE(buf[32:], i/32)
+					h = sha256Sum(buf[:])
+				}
+				if accept(cand, h[i%32]) {
+					got++
+				} else {
+					rejected++
+				}
+				examined = i + 1
+			}
+			c.Stats.Max("max_sync_sampling_candidates_over_active_permille", int(examined*1000/n))
+			if examined > n {
+				c.Stats.Inc("sync_sampling_wrapped_candidates")
+				if rejected > 0 {
+					// more candidates than active validators AND balance-dependent rejections: the byte stream must go on
+					c.Stats.Inc("sync_sampling_wrapped_with_rejections")
+				}
+			}
+		}
+	}
+	// compute_proposer_index of every slot of the new epoch
+	act := c.Epc.CurrentEpoch.ActiveIndices
+	if n := uint64(len(act)); n > 0 {
+		es, err := common.GetSeed(sp, mixes, cur, common.DOMAIN_BEACON_PROPOSER)
+		if err != nil {
+			return
+		}
+		for s := uint64(0); s < uint64(sp.SLOTS_PER_EPOCH); s++ {
+			var sb [40]byte
+			copy(sb[:32], es[:])
+			binaryLE(sb[32:], uint64(cur)*uint64(sp.SLOTS_PER_EPOCH)+s)
+			seed := common.Root(sha256Sum(sb[:]))
+			var buf [40]byte
+			copy(buf[:32], seed[:])
+			row := 0
+			for i := uint64(0); i < 10000; i++ {
+				cand := act[common.PermuteIndex(uint8(sp.SHUFFLE_ROUND_COUNT), common.ValidatorIndex(i%n), n, seed)]
+				binaryLE(buf[32:], i/32)
+				h := sha256Sum(buf[:])
+				if accept(cand, h[i%32]) {
+					break
+				}
+				row++
+			}
+			c.Stats.Max("max_proposer_sampling_rejections_in_a_row", row)
+			if row >= 2 {
+				c.Stats.Inc("proposer_sampling_rejections_in_a_row")
+			}
+		}
+	}
+}
+
+func binaryLE(b []byte, v uint64) {
+	for i := 0; i < 8; i++ {
+		b[i] = byte(v >> (8 * uint(i)))
+	}
+}
+
+func sha256Sum(b []byte) [32]byte { return sha256.Sum256(b) }
